@@ -625,21 +625,36 @@ func (c *Collection) setLastCas(txn *sql.Tx, cas CAS) (err error) {
 // document being modified. The function returns an event to be posted.
 func (c *Collection) withNewCas(fn func(txn *sql.Tx, newCas CAS) (*event, error)) error {
 	var e *event
-	err := c.bucket.inTransaction(func(txn *sql.Tx) error {
-		newCas := uint64(hlc.Now())
-		verifPoint("cas.new", newCas)
-		var err error
-		e, err = fn(txn, newCas)
-		if err != nil {
-			return err
-		}
-		verifPoint("cas.afterdoc", newCas)
-		return c.setLastCas(txn, newCas)
-	})
+	err := c.withFeedOrder(func() error {
+		return c.bucket.inTransaction(func(txn *sql.Tx) error {
+			newCas := uint64(hlc.Now())
+			verifPoint("cas.new", newCas)
+			var err error
+			e, err = fn(txn, newCas)
+			if err != nil {
+				return err
+			}
+			verifPoint("cas.afterdoc", newCas)
+			return c.setLastCas(txn, newCas)
+		})
+	}, &e)
 	if err == nil && e != nil {
-		verifPoint("post.before", e.cas)
-		c.postNewEvent(e)
-		verifPoint("post.after", e.cas)
+		c.bucket.expManager.scheduleExpirationAtOrBefore(e.exp)
+	}
+	return err
+}
+
+// withFeedOrder runs a write transaction and posts the event it produced while holding feedMutex.
+// Commit and posting must be atomic with respect to other writers: otherwise a second writer could
+// commit and post in between, and feeds would receive the two events out of CAS order.
+func (c *Collection) withFeedOrder(write func() error, e **event) error {
+	c.bucket.feedMutex.Lock()
+	defer c.bucket.feedMutex.Unlock()
+	err := write()
+	if err == nil && *e != nil {
+		verifPoint("post.before", (*e).cas)
+		c.postNewEvent(*e)
+		verifPoint("post.after", (*e).cas)
 	}
 	return err
 }
